@@ -368,24 +368,28 @@ def harnesses(tier: str) -> List[H]:
             if n_inv == 1 and shape in ("plain", "dbc_sub_members"):
                 seqs.append(2 if tier == "quick" else 3)
             for n_ops in seqs:
-                params = [I("on0", 0, 2)]
-                defaults = {"shape_i": si, "n_inv": n_inv, "on1": 0, "where1": 0, "op1": 0, "op2": 0,
-                            "n_ops": n_ops}  # type: Dict[str, Any]
-                if n_inv == 2:
-                    params += [I("on1", 0, 2)]
-                    if shape.startswith("dbc_sub"):
-                        params += [I("where1", 0, 1)]
-                params += [I("op%d" % k, 0, len(OPS) - 1) for k in range(n_ops)]
-                nbits = 2 * n_inv * n_ops
-                params += [B("s%d" % i) for i in range(nbits)]
-                for i in range(nbits, 12):
-                    defaults["s%d" % i] = True
-                name = "ops_{}_{}inv_{}op".format(shape, n_inv, n_ops)
-                out.append(H(name, bind(run_ops, (), ALL, defaults, [p.name for p in params]), params, tiers=(tier,),
-                             timeout=900 if tier == "quick" else 3600,
-                             family="class shape {}; {} invariant(s) with check_on in {{CALL, SETATTR, ALL}}{}; sequences of {} "
-                                    "operation(s) from {}; invariant truth values consumed from a symbolic sequence".format(
-                                        shape, n_inv, " declared on base or subclass" if shape.startswith("dbc_sub") else "",
-                                        n_ops, OP_NAMES),
-                             family_size=(3 ** n_inv) * len(OPS) ** n_ops))
+                split_on0 = [None] if n_ops == 1 else [0, 1, 2]
+                for fixed_on0 in split_on0:
+                    params = [I("on0", 0, 2)] if fixed_on0 is None else []
+                    defaults = {"shape_i": si, "n_inv": n_inv, "on1": 0, "where1": 0, "op1": 0, "op2": 0,
+                                "n_ops": n_ops}  # type: Dict[str, Any]
+                    if fixed_on0 is not None:
+                        defaults["on0"] = fixed_on0
+                    if n_inv == 2:
+                        params += [I("on1", 0, 2)]
+                        if shape.startswith("dbc_sub"):
+                            params += [I("where1", 0, 1)]
+                    params += [I("op%d" % k, 0, len(OPS) - 1) for k in range(n_ops)]
+                    nbits = 2 * n_inv * n_ops
+                    params += [B("s%d" % i) for i in range(nbits)]
+                    for i in range(nbits, 12):
+                        defaults["s%d" % i] = True
+                    name = "ops_{}_{}inv_{}op{}".format(shape, n_inv, n_ops, "" if fixed_on0 is None else "_on%d" % fixed_on0)
+                    out.append(H(name, bind(run_ops, (), ALL, defaults, [p.name for p in params]), params, tiers=(tier,),
+                                 timeout=900 if tier == "quick" else 3600,
+                                 family="class shape {}; {} invariant(s) with check_on in {{CALL, SETATTR, ALL}}{}; sequences of {} "
+                                        "operation(s) from {}; invariant truth values consumed from a symbolic sequence".format(
+                                            shape, n_inv, " declared on base or subclass" if shape.startswith("dbc_sub") else "",
+                                            n_ops, OP_NAMES),
+                                 family_size=(3 ** n_inv) * len(OPS) ** n_ops))
     return out
